@@ -351,6 +351,7 @@ func body(r *vlib.Run) {
 	r.ForTrials("invalid", r.N(600, 30000), func(trial int, rng *rand.Rand) { invalidTrial(r, trial, rng) })
 	r.ForTrials("fixed", r.N(300, 10000), func(trial int, rng *rand.Rand) { fixedTrial(r, trial, rng) })
 	r.ForTrials("client", r.N(600, 30000), func(trial int, rng *rand.Rand) { clientTrial(r, trial, rng) })
+	r.ForTrials("clientsyncvalue", r.N(200, 6000), func(trial int, rng *rand.Rand) { clientSyncValueTrial(r, trial, rng) })
 	r.ForTrials("agent", r.N(50, 1000), func(trial int, rng *rand.Rand) { agentTrial(r, trial, rng) })
 	if r.Shard%2 != 0 {
 		par()
